@@ -198,6 +198,21 @@ pub fn scenarios(tier: Tier) -> Vec<LinkScenario<fn() -> Box<dyn Probe>>> {
             }
         }
     }
+    // tick budget exceeded by a queue of mixed sizes: non-consecutive message ids in one packet
+    for dir in 0..2usize {
+        if tier == Tier::Quick && dir == 1 {
+            continue;
+        }
+        let chans = || vec![Chan::new(0, Kind::Ordered, 100_000, r), Chan::new(1, Kind::Unordered, 100_000, r), Chan::new(2, Kind::Unreliable, 100_000, 0)];
+        let mut cfg = LinkCfg::base(&format!("2000 B per tick, ord 900+1200+100 dir{}", dir), chans(), chans());
+        cfg.bytes_per_tick = 2000;
+        cfg.dt_ms = vec![100];
+        cfg.horizon = 4;
+        cfg.tail = 10;
+        cfg.drains = vec![Drain::End];
+        cfg.script = vec![Send { tick: 0, dir, ch: 0, len: 900 }, Send { tick: 0, dir, ch: 0, len: 1200 }, Send { tick: 0, dir, ch: 0, len: 100 }];
+        out.push(LinkScenario { cfg, probe: (|| Box::new(ReleaseProbe::new()) as Box<dyn Probe>) as fn() -> Box<dyn Probe> });
+    }
     out
 }
 
